@@ -13,7 +13,7 @@
    (Proofs/MergeIff.v).  The decidable form is evaluated by the extracted model on every generated module set
    and compared with the implementation's verdict. *)
 From Coq Require Import Permutation.
-From Verif Require Import Base.Str Base.Outcome Model.Ast Model.Merge Spec.MergeSpec Proofs.MergeProofs Proofs.MergeIff Proofs.MergeCheck.
+From Verif Require Import Base.Str Base.Outcome Model.Ast Model.Merge Spec.MergeSpec Proofs.MergeProofs Proofs.MergeIff Proofs.MergeCheck Proofs.MergeWf.
 
 Theorem C07_empty_set : forall v, merge [] v = Ok {| m_schema := v; m_types := []; m_conds := [] |}.
 Proof. reflexivity. Qed.
@@ -74,3 +74,12 @@ Proof. exact merge_ok_iff_b. Qed.
 
 Theorem C07_decidable_form_is_the_statement : forall fs, conflict_freeb fs = true <-> conflict_free fs.
 Proof. exact conflict_freeb_iff. Qed.
+
+(* 11. the well-formedness hypothesis is a theorem about the parser: for EVERY list of files with distinct names,
+       merge succeeds iff the list is conflict-free *)
+Theorem C07_parser_output_is_well_formed : forall fs, NoDup (map mf_name fs) -> wf_modules fs.
+Proof. exact wf_modules_of_parsed. Qed.
+
+Theorem C07_succeeds_iff_conflict_free_for_all_files : forall fs v,
+  NoDup (map mf_name fs) -> ((exists m, merge fs v = Ok m) <-> conflict_free fs).
+Proof. exact merge_ok_iff_unconditional. Qed.
